@@ -373,41 +373,6 @@ func vcMatches(s *Store, k int, mb *vcBlob, reboot bool) bool {
 	return same
 }
 
-// knownFindingA: with RebootIncompleteBlobs, a crash inside Create (between
-// the creation of the data file and the completed write of the _size sidecar)
-// or inside Delete of an incomplete blob (after _size is unlinked, before data
-// is) leaves an incomplete blob directory with a data file but no usable
-// _size. FINDINGS.md F1/F2; checked by VerifFindingCrashLeavesIncompleteWithoutSize.
-func (sc *vcScenario) knownFindingA() bool {
-	if !sc.cfg.reboot || !sc.crashed || sc.restart {
-		return false
-	}
-	pre := &sc.pre.blobs[sc.inflight.k]
-	switch sc.inflight.code {
-	case vcCreate:
-		return !pre.present
-	case vcDelete:
-		return pre.present && !pre.complete
-	}
-	return false
-}
-
-// knownFindingB: a crash inside the RemoveAll of a complete blob directory
-// (Delete, or eviction by a Create) that unlinks the data file before another
-// file of that directory. FINDINGS.md F3; VerifFindingCrashHalfRemovedBlobDir.
-// Only reachable when the unlink order is explored (data sorts last).
-func (sc *vcScenario) knownFindingB() bool {
-	if !sc.crashed || sc.restart || !vcSymbolicUnlinkOrder {
-		return false
-	}
-	for _, k := range sc.touched {
-		if sc.pre.blobs[k].complete && !sc.post.blobs[k].present {
-			return true
-		}
-	}
-	return false
-}
-
 // check reopens the store on the same directory and states the property.
 func (sc *vcScenario) check() {
 	final := sc.post
